@@ -27,9 +27,11 @@ GEN = {
     "str": lambda i: f"s{i}q", "bytes": lambda i: f"b{i}".encode(), "date": D, "datetime": T,
     "object": lambda i: (f"o{i}" if i % 2 else 5000 + i), "list": lambda i: [i, i + 1],
 }
-SPECIAL_FLOATS = [NAN, INF, -INF, -0.0, 1e308, 1e-5, 2.0]
+SPECIAL_FLOATS = [NAN, INF, -INF, -0.0, 1e308, 1e-5, 2.0,
+                  # ints held by a float vector (an int belongs to the float kind): small, beyond 2**53, beyond the float range
+                  3, 2 ** 53 + 1, 10 ** 400, -10 ** 400]
 SETTINGS = [None, 0, 1, 2, 3, 4, 5, 12, 13]
-NAMESV = [None, "nm", "x y", "sum", ""]
+NAMESV = [None, "nm", "x y", "sum", "", 5, (1, 2), 2.5]          # names need not be strings (Table({1: [...]}))
 
 
 def token(v, kind=None):
@@ -79,6 +81,8 @@ def shown_indices(length, half):
 
 
 def needs_quote(name):
+    if not isinstance(name, str):
+        return True
     if not name or not name.isidentifier() or name[0].isdigit():
         return True
     try:
@@ -471,6 +475,7 @@ def run_unit(unit):
         layouts.append([(None if i % 2 else base_names[i], "str", False) for i in range(width)])
         layouts.append([("dup", "int", i == 0) for i in range(width)])
         layouts.append([(["x y", "sum", "1a", "", "Nm"][i % 5], "int", False) for i in range(width)])
+        layouts.append([([7, (1, 2), 2.5, "k", -1][i % 5], "int", False) for i in range(width)])      # names that are not strings
         for odd in range(width):
             for okind, onull in (("str", False), ("int", True), ("float", False)):
                 lay = [(base_names[i], "int", False) for i in range(width)]
